@@ -3,6 +3,7 @@ import BiotiteModel.Proofs.C06Table
 import BiotiteModel.Proofs.C06TableLooped
 import BiotiteModel.Proofs.C06TableSingle
 import BiotiteModel.Proofs.C06Multiline
+import BiotiteModel.Proofs.C06File
 import BiotiteModel.Proofs.C06Containers
 import BiotiteModel.Gen.C06
 /-!
@@ -83,16 +84,51 @@ theorem C06_table_looped (name : Str) (cols : List (Str × List Str)) (r : Nat)
     (hname : NameOk name) (hkeys : ∀ kv ∈ cols, NameOk kv.1) (hnodup : (cols.map (·.1)).Nodup)
     (hcols : cols ≠ []) (hr : 2 ≤ r) (hrect : ∀ kv ∈ cols, kv.2.length = r)
     (hvals : ∀ kv ∈ cols, ∀ v ∈ kv.2, SingleLine v ∧ ¬ BothQuotes v) :
-    ∃ text, categorySerialize name cols = .ok text ∧ categoryDeserialize text = .ok (name, cols) :=
-  table_looped name cols r hname hkeys hnodup hcols hr hrect hvals
+    ∃ text, categorySerialize name cols = .ok text ∧ categoryDeserialize text = .ok (name, cols) := by
+  obtain ⟨W, h1, _, h2⟩ := table_looped name cols r hname hkeys hnodup hcols hr hrect hvals
+  exact ⟨_, h1, h2⟩
 
 /-- **Single-row category** (`_name.key   value` lines). -/
 theorem C06_table_single (name : Str) (kvs : List (Str × Str))
     (hname : NameOk name) (hkeys : ∀ kv ∈ kvs, NameOk kv.1) (hnodup : (kvs.map (·.1)).Nodup)
     (hne : kvs ≠ []) (hvals : ∀ kv ∈ kvs, SingleLine kv.2 ∧ ¬ BothQuotes kv.2) :
     ∃ text, categorySerialize name (kvs.map (fun kv => (kv.1, [kv.2]))) = .ok text ∧
-      categoryDeserialize text = .ok (name, kvs.map (fun kv => (kv.1, [kv.2]))) :=
-  table_single name kvs hname hkeys hnodup hne hvals
+      categoryDeserialize text = .ok (name, kvs.map (fun kv => (kv.1, [kv.2]))) := by
+  obtain ⟨W, h1, _, h2⟩ := table_single name kvs hname hkeys hnodup hne hvals
+  exact ⟨_, h1, h2⟩
+
+/-! ## Blocks and files: no written line can be misread as a header or a boundary -/
+
+/-- **Line-start safety lifted from tokens to lines.**  The lines `W` that `CIFCategory.serialize`
+writes for a good category (looped or single-row; values in the first column included):
+no line contains a line break, is blank or a comment, or starts a data block (`data_`); the
+first line starts the category (`loop_` followed by a key line of this category, or a
+`_name.key value` line); no later line starts a loop, and every later line either has no
+category name (value lines) or the name of this category. -/
+theorem C06_written_lines_safe (c : Str × Cols) (h : GoodCat c) :
+    ∃ W, categorySerialize c.1 c.2 = .ok (unlines W) ∧ CatLines c.1 W := by
+  obtain ⟨W, h1, h2, _⟩ := goodCat_lines c h
+  exact ⟨W, h1, h2⟩
+
+/-- **Block round trip.**  A block of good categories with distinct names: `CIFBlock.serialize`,
+then `CIFBlock.deserialize` (cutting the text at `loop_` / category-name changes, through comment
+lines) and `CIFCategory.deserialize` of every piece give back the same categories, in order. -/
+theorem C06_block_roundtrip (bname : Str) (cats : List (Str × Cols)) (hb : NameOk bname)
+    (hcats : ∀ c ∈ cats, GoodCat c) (hnd : (cats.map (·.1)).Nodup) :
+    ∃ text, blockSerialize bname cats = .ok text ∧
+      blockParse text = .ok (cats.map (fun c => (some c.1, c))) := by
+  obtain ⟨Ws, _, h1, h2⟩ := block_roundtrip bname cats hb hcats hnd
+  exact ⟨_, h1, h2⟩
+
+/-- **File round trip.**  A file of good blocks with distinct names (each a block of good
+categories with distinct names, each category a rectangular table of single-line values):
+`CIFFile.serialize`, then `CIFFile.deserialize` (cutting at `data_` lines), `CIFBlock.deserialize`
+and `CIFCategory.deserialize` give back the same nested mapping. -/
+theorem C06_file_roundtrip (blocks : List Block) (hb : ∀ b ∈ blocks, GoodBlock b)
+    (hnd : (blocks.map (·.1)).Nodup) :
+    ∃ text, fileSerialize blocks = .ok text ∧
+      fileParse text = .ok (blocks.map (fun b => (b.1, b.2.map (fun c => (some c.1, c))))) :=
+  file_roundtrip blocks hb hnd
 
 /-- A table of cells (PRESENT value / INAPPLICABLE / MISSING): its rendering is a table of
 single-line strings to which the two theorems above apply, and inferring the masks of the
@@ -207,6 +243,27 @@ theorem C06_binary_block_refines {ρ ν : Type} (kind : Kind) (parse : ρ → Op
       (absP decU parse (runP encU decU kind parse st ops).1, (runP encU decU kind parse st ops).2) :=
   runP_refines encU decU (fun _ => rfl) kind parse ops st hst
 
+/-- **Lazy parsing at file level.**  If the whole text parses (`fileParse text = ok r`), the file as
+`CIFFile.deserialize` holds it — every block still text, every category of an accessed block still
+text — means exactly the fully parsed nested mapping `r`.  By `C06_container_refines` (and
+`…_eq_refines`) every history of mapping operations on the file, and on any block obtained from it,
+therefore answers like the same history on the parsed form. -/
+theorem C06_lazy_file_refines (text : Str) (r : List (Str × List (Option Str × (Str × Cols))))
+    (h : fileParse text = .ok r) :
+    deepAbs (lazyFile text) = deepAbs (parsedFile r) ∧
+    deepAbs (parsedFile r) = r.map (fun b => (b.1, some (b.2.map (fun c => (c.1, some c.2))))) := by
+  refine ⟨lazy_file_abs text r h, ?_⟩
+  simp [deepAbs, parsedFile, absStore, Entry.force, List.map_map, Function.comp_def]
+
+/-- `file[b][c]` on the lazily held file (two lazy steps, for *any* text, parseable or not) is the
+look-up in the nested mapping the file means; after a successful `fileParse` that is the look-up in `r`. -/
+theorem C06_lazy_get (text : Str) (b : Str) (c : Option Str) :
+    lazyGet text b c = deepGet (deepAbs (lazyFile text)) b c ∧
+    ∀ r, fileParse text = .ok r → lazyGet text b c = deepGet (deepAbs (parsedFile r)) b c := by
+  have h := lazyGet_eq (lazyFile text) b c
+  refine ⟨h, fun r hr => ?_⟩
+  rw [← lazy_file_abs text r hr]; exact h
+
 /-- **Reads are pure.**  (a) On a column with an explicit mask, `as_array` in every flavour, reading
 `.data.array`, and building a second column on the same data leave (data, mask) unchanged, so a
 whole history of reads gives what each read gives on the *initial* column.  (b) On the containers,
@@ -296,6 +353,49 @@ theorem C06_multiline_partial (l0 : Str) (ls : List Str) (hml : ls ≠ [] ∨ Bo
   rw [hesc]
   exact multiline_tokens l0 ls h0nl h0 hls
 
+/-- **Rows that mix multi-line values with ordinary values (partial).**  A written row (or any
+sequence of rows) seen as stretches — a line of ordinary tokens (single-line values written by
+`_escape`, any padding), or the `;`-delimited lines of a multi-line value whose later lines are
+`KeptLine`s — is re-assembled by `_to_single` and tokenised into exactly the values, in order:
+a `;` block between token lines is merged into one value, token lines before and after it are
+not absorbed, and no written token line is taken for a delimiter.
+This starts from the lines *after* the reader dropped empty lines and stripped each line
+(`Seg.lines`); that those are the lines of the text `_serialize_looped` writes for such a row
+(`ljust` of a token that ends in a line break, the global `strip()`) is established by the
+correspondence (`serfile`/`rt` with `good_multiline` values at every row/column), not by a theorem. -/
+theorem C06_mixed_row_partial (segs : List Seg) (h : ∀ s ∈ segs, s.Ok) :
+    mapM' splitOneLine (toSingle none (segs.flatMap Seg.lines)) = .ok (segs.map Seg.vals) := by
+  induction segs with
+  | nil => rfl
+  | cons s segs ih =>
+    have ih' := ih (fun x hx => h x (by simp [hx]))
+    have hs := h s (by simp)
+    cases s with
+    | toks vals pads =>
+      obtain ⟨hne, hlen, hv⟩ := hs
+      have hrow := C06_row vals pads hne hlen hv
+      have hsemi : ((padded ((vals.map escape).zip pads)).head? == some ';') = false := by
+        cases vals with
+        | nil => exact absurd rfl hne
+        | cons v vs =>
+          cases pads with
+          | nil => simp at hlen
+          | cons p ps =>
+            have hv0 := hv v (by simp)
+            have hs0 := escape_tok v hv0.1 hv0.2
+            simp only [List.map_cons, List.zip_cons_cons]
+            rw [padded_head? _ _ _ (tok_ne_nil _ _ hs0.1)]
+            simpa using hs0.2.semi
+      simp only [List.flatMap_cons, Seg.lines, List.singleton_append, toSingle, hsemi, Bool.false_eq_true, if_false,
+        mapM', hrow, ih', bind, Except.bind, List.map_cons, Seg.vals]
+    | ml l0 ls =>
+      have hk : ∀ l ∈ ls, l.head? ≠ some ';' := fun l hl => (hs l hl).nosemi
+      have h1 : ((';' :: l0).head? == some ';') = true := by simp
+      simp only [List.flatMap_cons, Seg.lines, List.cons_append, List.append_assoc, toSingle, h1, if_true]
+      rw [List.nil_append, toSingle_block_rest [';' :: l0] ls _ hk]
+      simp only [List.singleton_append, joinNl_cons_head, mapM', splitOneLine, beq_self_eq_true, if_true, ih',
+        bind, Except.bind, List.map_cons, Seg.vals]
+
 /-- Special case: a single-line value with both quote characters that does not end with a blank. -/
 theorem C06_both_quotes_partial (v : Str) (hs : SingleLine v) (hb : BothQuotes v)
     (hlast : ∃ s c, v = s ++ [c] ∧ isWs c = false) : readTokens (escape v) = .ok [v] := by
@@ -357,6 +457,23 @@ example : (runP (ρ := Nat) (ν := Nat) encU decU ⟨false, true⟩ (fun r => so
 example : (Col.mk [str "x1", str "x2", str "x3"] [0, 1, 2]).asArray none = [str "x1", sDot, sQm] := by decide
 example : (colRun ⟨[str "x1", str "x2"], [2, 0]⟩ [.arr none, .data, .arr (some (str "-")), .plain]).2 =
     [[sQm, str "x2"], [str "x1", str "x2"], [str "-", str "x2"], [str "x1", str "x2"]] := by decide
+example : (match fileParse (str "data_b\n#\nloop_\n_c.k \n'#x'\n'data_1'\n#\nloop_\n_d.j \n'loop_'\n';'\n#\n") with
+    | .ok r => r == [(str "b", [(some (str "c"), (str "c", [(str "k", [str "#x", str "data_1"])])),
+                                (some (str "d"), (str "d", [(str "j", [str "loop_", str ";"])]))])]
+    | .error _ => false) = true := by decide
+example : fileSerialize [(str "b", [(str "c", [(str "k", [str "#x", str "data_1"])]), (str "d", [(str "j", [str "loop_", str ";"])])])] =
+    .ok (str "data_b\n#\nloop_\n_c.k \n'#x'\n'data_1'\n#\nloop_\n_d.j \n'loop_'\n';'\n#\n") := by decide
+example : (Seg.toks [str "a", str "#x"] [2, 0]).Ok ∧ (Seg.ml (str "first") [str "second line"]).Ok := by
+  refine ⟨⟨by simp, rfl, ?_⟩, ?_⟩
+  · intro v hv
+    simp only [List.mem_cons, List.mem_nil_iff, or_false] at hv
+    rcases hv with rfl | rfl <;> exact ⟨by unfold SingleLine; decide, by unfold BothQuotes; decide⟩
+  · intro l hl
+    simp only [List.mem_cons, List.mem_nil_iff, or_false] at hl
+    subst hl
+    exact ⟨⟨⟨'s', _, rfl, by decide⟩, ⟨str "second lin", 'e', by decide, by decide⟩⟩, by decide, by decide, by decide⟩
+example : ([Seg.toks [str "a", str "#x"] [2, 0], Seg.ml (str "first") [str "second line"], Seg.toks [str "b"] [0]].flatMap Seg.lines) =
+    [str "a   '#x'", str ";first", str "second line", str ";", str "b"] := by decide
 example : (rcRun (κ := Nat) false ⟨[(0, 2)], none⟩ [.ser, .set 0 3, .ser, .count]).2 =
     [.ok (some 2), .ok none, .ok (some 3), .ok (some 3)] := by decide
 example : NameOk (str "atom_site") := by unfold NameOk; decide
